@@ -80,6 +80,8 @@ def run(ctx):
     finally:
         chk.prefix = ""
     kb = p.need_body(KEYCLK)
+    from .. import fetchlatch
+    fetchlatch.boundary_predicate(ctx)
 
     done_words = sorted(g.done)
     nondone = sorted(a for a in g.prog if a not in g.done)
